@@ -992,6 +992,9 @@ func (m *MutableOverlayWorld) MergeInto(other MutableWorld) error {
 
 func (m *MutableOverlayWorld) Snapshot() b6.World {
 	copy := *m
+	// The snapshot takes over the search index, which has to resolve the
+	// features it returns within the snapshot, rather than the live world.
+	copy.index.features = &copy
 	m.base = &copy
 	m.features = NewFeaturesByID()
 	m.references = NewFeatureReferences()
